@@ -26,7 +26,7 @@ RULE = ("one case = random map pipeline x persisting storage (file_array | dict 
         "objects dropped, directory order re-permuted), possibly several successive fresh processes; a quarter of the cases "
         "spell the run folder relatively or absolutely per call and move the working directory between loads; after the run "
         "every stored file must carry the permissions the umask grants; the dataset built from the results in hand is a second baseline "
-        "for the folder loader. "
+        "for the folder loader; in a fifth of the cases a peer process loads the same run during every load of the history. "
         "distinct_nontrivial = distinct (workload, storage, load history) digests containing at least one load after "
         "a process exit")
 COMPONENTS = {
